@@ -29,22 +29,27 @@ def run(tier, seed, replay=None):
     ib = [C.bin_path("impl_m2")]
     cases = []
     n = lambda: r.choice([0, 1, 2, 5])
-    for i in range(100 if big else 36):
+    for i in range(800 if big else 36):
         ver = i % 5
         cases.append((None, "model %x %x %x %x %x %x %x %x %x %x 0 %x %x %s" % (ver, r.randrange(1, 0xffff), r.choice([0, 1, 5, 40, 300]), n(), n(), r.choice([0, 1, 4, 30]), n(), n(), n(), n(), n(), n(),
                                                                              " ".join("%x" % x for x in (n(), n(), n(), n(), n(), n(), 0, r.choice([0, 2]))) + " 302")))
     cases.append((None, "model 2 1 0 0 0 0 0 0 0 0 0 0 0 0 0 0 0 0 0 0 0 302"))
     # bone tracks sharing key-frame value arrays (identical tracks stored once)
-    for i in range(10 if big else 5):
+    for i in range(60 if big else 5):
         cases.append((None, "model %x %x 3 2 %x 4 0 1 2 1 0 1 1 1 1 1 1 1 2 0 2 b0%x" % (i % 5, r.randrange(1, 0xfff), r.choice([3, 5, 8]), r.choice([2, 3, 4]))))
-    for a in range(5):
-        for b in range(5):
-            if not big and (a + b) % 2 and a != b:
-                continue
-            tag = "upgrade-264" if a <= 1 < b else None
-            cases.append((tag, "conv %x %x %x 6 3 4 5 3 2 4 3 0 2 2 %s" % (a, b, r.randrange(1, 0xfff), CLEAN_TAIL)))
+    # ... and bone tracks sharing timestamp arrays (with and without shared values)
+    for i in range(60 if big else 10):
+        cases.append((None, "model %x %x 3 2 %x 4 0 1 2 1 0 1 1 1 1 1 1 1 2 0 2 %s0%x" % (i % 5, r.randrange(1, 0xfff), r.choice([2, 3, 5, 8]), r.choice(["13", "1b"]), r.choice([2, 3, 4]))))
+    for rep in range(6 if big else 1):
+        for a in range(5):
+            for b in range(5):
+                if not big and (a + b) % 2 and a != b:
+                    continue
+                tag = "upgrade-264" if a <= 1 < b else None
+                shape = "6 3 4 5 3 2 4 3 0 2 2" if rep == 0 else " ".join("%x" % r.choice([0, 1, 2, 5, 9]) for _ in range(8)) + " 0 %x %x" % (r.choice([0, 2]), r.choice([0, 2]))
+                cases.append((tag, "conv %x %x %x %s %s" % (a, b, r.randrange(1, 0xfff), shape, CLEAN_TAIL)))
     for lay in (0, 1):
-        for k in range(6 if big else 3):
+        for k in range(40 if big else 3):
             cases.append((None, "skin %x %x %x %x %x %x 0" % (lay, r.randrange(1, 999), r.choice([5, 8, 30]), 3 * r.choice([0, 2, 7]), 4 * r.choice([0, 2, 5]), r.choice([0, 1, 3]))))
     cases += [(None, "anim 1 %x %x %x 0" % (r.randrange(1, 99), k, 40)) for k in (0, 1, 3)]
     # listed findings
